@@ -119,15 +119,29 @@ theorem try_back_fallback_iff (s : Sig) (body : PDict → Res Val) (p : PDict) (
       evalChain s body ((.tryBack, p) :: rest) c = .ok (firstArg s c)) := by
   constructor <;> intro x hx <;> simp [evalChain, hx]
 
-/-- **Transparency of every stack.** On a call that passes only declared keywords, any stack of
-`try_value / try_back / kwargs_support / cache (first call) / loops (non-container) / pd2np (non-pandas)`
-returns what `f` returns. -/
-theorem stack_transparent (s : Sig) (body : PDict → Res Val) (c : Call) (v : Val)
-    (hd : ∀ p ∈ c.kw, p.1 ∈ s.params) (h : applyFn s body c = .ok v) :
-    ∀ chain : List (Cls × PDict), evalChain s body chain c = .ok v
-  | [] => by simpa [evalChain] using h
-  | (cls, p) :: rest => by
-      have ih := stack_transparent s body c v hd h rest
+/-- `loops` is NOT transparent for a keyword argument called `axis` (finding K4): it is consumed by the decorator
+even when the first argument is not a container, `loop(list)(lambda a, axis=0: (a, axis))(1, axis=5) == (1, 0)`.
+The transparency clause of the property is false of the code there; this is the witness. -/
+theorem loops_swallows_axis :
+    ∃ (s : Sig) (c : Call) (b : PDict), s.WF ∧ bindRef s c = .ok b ∧
+      evalChain s recBody [(.loops, [])] c ≠ applyFn s recBody c := by
+  refine ⟨{ params := ["a", "axis"], defaults := [.cell (.int 0)], varargs := none, varkw := none },
+    { args := [.cell (.int 1)], kw := [("axis", .cell (.int 5))] },
+    [("a", .cell (.int 1)), ("axis", .cell (.int 5))], ?_, by decide, by decide⟩
+  refine ⟨by decide, by decide, ?_, ?_, ?_⟩
+  · intro n h; cases h
+  · intro n h; cases h
+  · intro n m h; cases h
+
+/-- **Transparency of every stack.** On a valid call that passes only declared keywords, none of them called
+`axis` (see `loops_swallows_axis`), any stack of `try_value / try_back / kwargs_support / cache (first call) /
+loops (non-container) / pd2np (non-pandas)` returns what `f` returns. -/
+theorem stack_transparent (s : Sig) (body : PDict → Res Val) :
+    ∀ (chain : List (Cls × PDict)) (c : Call) (v : Val), (∀ p ∈ c.kw, p.1 ∈ s.params) →
+      (∀ p ∈ c.kw, p.1 ≠ "axis") → applyFn s body c = .ok v → evalChain s body chain c = .ok v
+  | [], c, v, _, _, h => by simpa [evalChain] using h
+  | (cls, p) :: rest, c, v, hd, hax, h => by
+      have ih := stack_transparent s body rest c v hd hax h
       have hk : kwFilter s c = c := by
         cases c with
         | mk args kw =>
@@ -135,13 +149,17 @@ theorem stack_transparent (s : Sig) (body : PDict → Res Val) (c : Call) (v : V
           apply List.filter_eq_self.2
           intro q hq
           simpa using hd q hq
-      cases cls <;> simp [evalChain, ih, hk]
+      have hl : evalChain s body rest (loopsCall s c) = .ok v :=
+        stack_transparent s body rest (loopsCall s c) v
+          (fun q hq => hd q (loopsCall_kw_sub s c q hq)) (fun q hq => hax q (loopsCall_kw_sub s c q hq))
+          (by simpa [applyFn, loopsCall_bind s c hax] using h)
+      cases cls <;> simp [evalChain, ih, hk, hl]
 
-/-- for a function without `**kwargs` that is every valid call -/
+/-- for a function without `**kwargs` that is every valid call (without a keyword called `axis`) -/
 theorem stack_transparent_no_varkw (s : Sig) (hv : s.varkw = none) (body : PDict → Res Val) (c : Call)
-    (v : Val) (h : applyFn s body c = .ok v) (chain : List (Cls × PDict)) :
+    (v : Val) (hax : ∀ p ∈ c.kw, p.1 ≠ "axis") (h : applyFn s body c = .ok v) (chain : List (Cls × PDict)) :
     evalChain s body chain c = .ok v := by
-  apply stack_transparent s body c v _ h
+  apply stack_transparent s body chain c v _ hax h
   cases hb : bindRef s c with
   | error e => simp [applyFn, hb] at h
   | ok b =>
@@ -153,24 +171,28 @@ theorem stack_transparent_no_varkw (s : Sig) (hv : s.varkw = none) (body : PDict
 
 /-- for a function with `**kwargs`, every stack that does not contain `kwargs_support` is transparent on
 every valid call (what remains is finding K1) -/
-theorem stack_transparent_without_kwargs_support (s : Sig) (body : PDict → Res Val) (c : Call) (v : Val)
-    (h : applyFn s body c = .ok v) :
-    ∀ chain : List (Cls × PDict), (∀ w ∈ chain, w.1 ≠ .kwargsSupport) → evalChain s body chain c = .ok v
-  | [], _ => by simpa [evalChain] using h
-  | (cls, p) :: rest, hc => by
-      have ih := stack_transparent_without_kwargs_support s body c v h rest
-        (fun w hw => hc w (by simp [hw]))
+theorem stack_transparent_without_kwargs_support (s : Sig) (body : PDict → Res Val) :
+    ∀ (chain : List (Cls × PDict)) (c : Call) (v : Val), (∀ p ∈ c.kw, p.1 ≠ "axis") →
+      applyFn s body c = .ok v → (∀ w ∈ chain, w.1 ≠ .kwargsSupport) → evalChain s body chain c = .ok v
+  | [], c, v, _, h, _ => by simpa [evalChain] using h
+  | (cls, p) :: rest, c, v, hax, h, hc => by
+      have hr : ∀ w ∈ rest, w.1 ≠ .kwargsSupport := fun w hw => hc w (by simp [hw])
+      have ih := stack_transparent_without_kwargs_support s body rest c v hax h hr
+      have hl : evalChain s body rest (loopsCall s c) = .ok v :=
+        stack_transparent_without_kwargs_support s body rest (loopsCall s c) v
+          (fun q hq => hax q (loopsCall_kw_sub s c q hq))
+          (by simpa [applyFn, loopsCall_bind s c hax] using h) hr
       have : cls ≠ .kwargsSupport := hc (cls, p) (by simp)
       cases cls <;> simp_all [evalChain]
 
 /-- a stack without `try_*` also raises what `f` raises -/
-theorem stack_transparent_raise (s : Sig) (body : PDict → Res Val) (c : Call)
-    (hd : ∀ p ∈ c.kw, p.1 ∈ s.params) :
-    ∀ chain : List (Cls × PDict), (∀ w ∈ chain, w.1 ≠ .tryValue ∧ w.1 ≠ .tryBack) →
-      evalChain s body chain c = applyFn s body c
-  | [], _ => by simp [evalChain]
-  | (cls, p) :: rest, hc => by
-      have ih := stack_transparent_raise s body c hd rest (fun w hw => hc w (by simp [hw]))
+theorem stack_transparent_raise (s : Sig) (body : PDict → Res Val) :
+    ∀ (chain : List (Cls × PDict)) (c : Call), (∀ p ∈ c.kw, p.1 ∈ s.params) → (∀ p ∈ c.kw, p.1 ≠ "axis") →
+      (∀ w ∈ chain, w.1 ≠ .tryValue ∧ w.1 ≠ .tryBack) → evalChain s body chain c = applyFn s body c
+  | [], c, _, _, _ => by simp [evalChain]
+  | (cls, p) :: rest, c, hd, hax, hc => by
+      have hr : ∀ w ∈ rest, w.1 ≠ .tryValue ∧ w.1 ≠ .tryBack := fun w hw => hc w (by simp [hw])
+      have ih := stack_transparent_raise s body rest c hd hax hr
       have hk : kwFilter s c = c := by
         cases c with
         | mk args kw =>
@@ -178,9 +200,12 @@ theorem stack_transparent_raise (s : Sig) (body : PDict → Res Val) (c : Call)
           apply List.filter_eq_self.2
           intro q hq
           simpa using hd q hq
+      have hl : evalChain s body rest (loopsCall s c) = applyFn s body c := by
+        rw [stack_transparent_raise s body rest (loopsCall s c)
+          (fun q hq => hd q (loopsCall_kw_sub s c q hq)) (fun q hq => hax q (loopsCall_kw_sub s c q hq)) hr]
+        simp [applyFn, loopsCall_bind s c hax]
       have := hc (cls, p) (by simp)
       cases cls <;> simp_all [evalChain]
-
 
 /-! ## no double wrapping
 
